@@ -26,10 +26,10 @@ using namespace chaiscript;
 
 namespace {
 
-  enum Ty { INT, DBL, BOOL, STR, BASE, DERIVED, OTHER, VEC, FN, ANY, NUM, CHR, N_TY };
-  enum Form { VAL, CREF, REF, PTR, CPTR, SP, SPC, N_FORM };
-  const char *ty_names[] = {"int", "double", "bool", "string", "Base", "Derived", "Other", "Vector", "function", "Boxed_Value", "Boxed_Number", "char"};
-  const char *form_names[] = {"T", "const T&", "T&", "T*", "const T*", "shared_ptr<T>", "shared_ptr<const T>"};
+  enum Ty { INT, DBL, BOOL, STR, BASE, DERIVED, OTHER, VEC, FN, ANY, NUM, CHR, UNDEF, N_TY };
+  enum Form { VAL, CREF, REF, PTR, CPTR, SP, SPC, RREF, N_FORM };
+  const char *ty_names[] = {"int", "double", "bool", "string", "Base", "Derived", "Other", "Vector", "function", "Boxed_Value", "Boxed_Number", "char", "undefined"};
+  const char *form_names[] = {"T", "const T&", "T&", "T*", "const T*", "shared_ptr<T>", "shared_ptr<const T>", "T&&"};
 
   struct Base6 {
     int id;
@@ -180,8 +180,10 @@ namespace {
         /*40*/ sig1_throwing<const Base6 &>({BASE, CREF}),
         /*41*/ sig1_throwing<int>({INT, VAL}),
         /*42*/ sig1_throwing<const std::string &>({STR, CREF}),
-        // never generated (N_GENERATED below): body raises bad_boxed_cast itself — known finding C06-K1
-        /*43*/ sig1_throwing<const Base6 &, true>({BASE, CREF}),
+        /*43*/ sig1<std::string &&>({STR, RREF}),
+        /*44*/ sig1<int &&>({INT, RREF}),
+        // never generated: body raises bad_boxed_cast itself — known finding C06-K1 (always the LAST entry)
+        /*45*/ sig1_throwing<const Base6 &, true>({BASE, CREF}),
     };
     return c;
   }
@@ -216,10 +218,12 @@ namespace {
         // arrives through arithmetic conversion, which must keep its value)
         {"neg_char()", CHR, false, true, "char:-61", -61},
         {"fun(x) { neg_char() }", FN, false, true, "fn:-61", 0},
+        // a declared but never assigned variable: no type at all; only a Boxed_Value parameter may receive it
+        {"vu", UNDEF, false, false, "undefined", 0},
     };
     return a;
   }
-  const char *ACTOR_PRELUDE = "var vi = 7; var vd = 1.5; var vs = \"abc\"; var vb = Base(11); var vder = Derived(22); var voth = Other(33);";
+  const char *ACTOR_PRELUDE = "var vu; var vi = 7; var vd = 1.5; var vs = \"abc\"; var vb = Base(11); var vder = Derived(22); var voth = Other(33);";
 
   bool arithmetic(Ty t) { return t == INT || t == DBL || t == CHR; }
 
@@ -238,7 +242,11 @@ namespace {
       expected = "num:*";
       return arithmetic(a.ty);
     }
-    const bool needs_mutable = (p.form == REF || p.form == PTR || p.form == SP) && strict_const;
+    if (a.ty == UNDEF) {
+      return false; // (the Boxed_Value catch-all was accepted above)
+    }
+    // an rvalue reference is moved from: handing a const value to it is refused whatever the tier of strictness
+    const bool needs_mutable = ((p.form == REF || p.form == PTR || p.form == SP) && strict_const) || p.form == RREF;
     const bool needs_shared = p.form == SP || p.form == SPC;
     if (p.ty == a.ty) {
       if (needs_mutable && a.is_const) {
@@ -319,7 +327,7 @@ namespace {
         } else if (k == 6) {
           op["k"] = J("cast");
           op["arg"] = J(int(plan.below(nargs)));
-          op["to"] = J(int(plan.below(8)));
+          op["to"] = J(int(plan.below(10)));
         } else {
           op["k"] = J("call");
           const int name = int(plan.below(uint64_t(n_names)));
@@ -393,7 +401,9 @@ namespace {
         case 4: return desc(e.boxed_cast<Base6 &>(bv));
         case 5: return desc(e.boxed_cast<std::shared_ptr<Base6>>(bv));
         case 6: return desc(e.boxed_cast<bool>(bv));
-        default: return desc(e.boxed_cast<const Derived6 &>(bv));
+        case 7: return desc(e.boxed_cast<const Derived6 &>(bv));
+        case 8: return desc(e.boxed_cast<const Base6 *>(bv));
+        default: return desc(e.boxed_cast<const int *>(bv));
         }
       };
 
@@ -450,7 +460,7 @@ namespace {
               try {
                 Boxed_Value bv = e.eval(arg.expr);
                 try {
-                  out = "=" + do_cast(int(op.at("to").num()) % 8, bv);
+                  out = "=" + do_cast(int(op.at("to").num()) % 10, bv);
                 } catch (const exception::bad_boxed_cast &) {
                   out = "!bad_boxed_cast";
                 }
@@ -523,8 +533,8 @@ namespace {
         auto bad = [&](const std::string &rule, const std::string &why) { r.fail(rule, "op " + std::to_string(oi) + " " + op.dump() + " -> " + R.out + ": " + why); };
         if (k == "cast") {
           const Arg &arg = args[size_t(op.at("arg").num()) % args.size()];
-          static const Param targets[8] = {{INT, VAL}, {DBL, VAL}, {STR, VAL}, {BASE, CREF}, {BASE, REF}, {BASE, SP}, {BOOL, VAL}, {DERIVED, CREF}};
-          const Param &tp = targets[op.at("to").num() % 8];
+          static const Param targets[10] = {{INT, VAL}, {DBL, VAL}, {STR, VAL}, {BASE, CREF}, {BASE, REF}, {BASE, SP}, {BOOL, VAL}, {DERIVED, CREF}, {BASE, CPTR}, {INT, CPTR}};
+          const Param &tp = targets[op.at("to").num() % 10];
           std::string expected;
           // the conversion may have been registered at any time up to the end of this cast
           const bool conv_possible = conv_inv <= R.ret;
